@@ -52,6 +52,7 @@ def _mk():
     # same shape AND same multiset of values as A (a cache keyed on shape / totals / extremes cannot tell them apart)
     Ap = pd.DataFrame({"a": [4.5, 4.0, 0.5, 0.0, 0.5, 0.0, 4.0, 4.5]})
     B = pd.DataFrame({"a": [0.0, 1.0, 0.0, 5.0, 6.0, 5.0], "b": [2.0, 2.5, 2.0, 2.5, 9.0, 2.0]})
+    B.index = pd.RangeIndex(6, name="time")  # a NAMED index: the name belongs to the caller's data too
     U = pd.DataFrame({"a": [4.0, 0.0, 0.5]}, index=pd.RangeIndex(8, 11))
     # high level, small spread (|mean| > 100 * std) and a constant non-zero second data set: "numerical stability"
     # shortcuts (centring, rescaling) that touch the caller's data in place show on such data
